@@ -60,6 +60,8 @@ def cleanup_scratch():
 def preload():
     """Import the heavy parts of the repository once per worker so forked children start warm."""
     bind_repo()
+    from vf.core import cover
+    cover.start(repo_src())
     import logging
     logging.disable(logging.CRITICAL)
     import numpy  # noqa
@@ -98,10 +100,14 @@ def fork_exec(fn, arg, timeout=300.0, keep_output=False):
                 os.dup2(dn, 2)
                 sys.stdout = open(os.devnull, 'w')
                 sys.stderr = open(os.devnull, 'w')
+            from vf.core import cover
+            cover.child_begin()
             try:
                 res = ('ok', fn(arg))
             except BaseException as e:  # noqa
                 res = ('exc', f'{type(e).__name__}: {e}', traceback.format_exc())
+            if cover.DIR:
+                res = res + ({'__cover__': cover.child_new()},)
             try:
                 data = pickle.dumps(res, protocol=pickle.HIGHEST_PROTOCOL)
             except BaseException as e:  # noqa
@@ -146,9 +152,15 @@ def fork_exec(fn, arg, timeout=300.0, keep_output=False):
     if not data:
         return ('died', 'child produced no result', '')
     try:
-        return pickle.loads(data)
+        res = pickle.loads(data)
     except Exception as e:  # noqa
         return ('died', f'bad result: {e!r}', '')
+    if res and isinstance(res[-1], dict) and '__cover__' in res[-1]:
+        from vf.core import cover
+        cover.parent_merge(res[-1]['__cover__'])
+        cover.flush()
+        res = res[:-1]
+    return res
 
 
 def _worker_init(extra_init):
